@@ -18,6 +18,7 @@ type Val struct {
 	Bind  []Val         // closure free variables
 	Const *big.Int      // untyped integer constant (spec evaluation only)
 	IsNil bool          // untyped nil (spec evaluation only)
+	Dyn   *Val          // for an interface value built in this function: the concrete value inside
 }
 
 const (
